@@ -186,7 +186,16 @@ impl Idle {
                             radio::Response::TxDone(ms) => {
                                 data_rxwindow1_timeout::<R, N>(frame, rx_windows, mac, radio, ms)
                             }
-                            _ => (State::Idle(self), Err(Error::UnexpectedRadioResponse.into())),
+                            _ => {
+                                // Whatever that answer means, the frame was handed to the radio:
+                                // conclude the uplink so that its frame counter is never reused.
+                                if let Frame::Data = frame
+                                    && let mac::Response::SessionExpired = mac.rx2_complete()
+                                {
+                                    return (State::Idle(self), Ok(Response::SessionExpired));
+                                }
+                                (State::Idle(self), Err(Error::UnexpectedRadioResponse.into()))
+                            }
                         }
                     }
                     Err(e) => {
